@@ -29,6 +29,11 @@ Theorem C10_chunks_full : forall (A : Type) (k : nat) (l : list A),
 Proof. exact @chunks_full. Qed.
 Print Assumptions C10_chunks_full.
 
+(* a chunk size at least the batch size: a single call on the whole batch *)
+Theorem C10_chunks_single : forall (A : Type) (k : nat) (l : list A), length l <= k -> chunks k l = [l].
+Proof. exact @chunks_single. Qed.
+Print Assumptions C10_chunks_single.
+
 (* the function is called exactly ceil(len / k) times on a non-empty batch *)
 Theorem C10_chunks_count : forall (A : Type) (k : nat) (l : list A),
   1 <= k -> l <> [] ->
